@@ -20,6 +20,11 @@ type EvalCtx struct {
 	pkg   string // package name for spec function / type lookup
 	where string
 	fresh string
+	reads []readRec // slice element reads seen inside the innermost quantifier
+}
+
+type readRec struct {
+	arr, ref, off, idx string
 }
 
 type evalErr struct{ msg string }
@@ -172,14 +177,41 @@ func (e *EvalCtx) eval(n *XNode) Val {
 			e.bound[b.Name] = S{nm, t}
 			_ = ranges
 		}
+		savedReads := e.reads
+		e.reads = nil
 		body := e.evalBool(n.Kids[0])
+		reads := e.reads
+		e.reads = savedReads
 		for _, b := range n.Bind {
 			delete(e.bound, b.Name)
 			if o, ok := saved[b.Name]; ok {
 				e.bound[b.Name] = o
 			}
 		}
-		return S{"(" + n.Op + " (" + strings.Join(binds, " ") + ") " + body + ")", boolT}
+		orig := "(" + n.Op + " (" + strings.Join(binds, " ") + ") " + body + ")"
+		if n.Op == "forall" && e.f.hypMode && len(n.Bind) == 1 && sortOfType(e.typeByName(n.Bind[0].Type)) == "Int" {
+			// as a hypothesis: add re-parameterised copies quantified over the absolute array index, so that any read of the array triggers them
+			q := "q_" + n.Bind[0].Name
+			variants := []string{orig}
+			seen := map[string]bool{}
+			for _, r := range reads {
+				shift, ok := linearShift(r.idx, q)
+				if !ok || strings.Contains(r.ref, "q_") || strings.Contains(r.off, "q_") || strings.Contains(r.arr, "q_") {
+					continue
+				}
+				key := r.arr + "|" + r.ref + "|" + r.off + "|" + shift
+				if seen[key] {
+					continue
+				}
+				seen[key] = true
+				// a = off + shift + k   =>   k = a - (off + shift)
+				sub := "(- q_abs " + plus(r.off, shift) + ")"
+				nb := replaceSym(body, q, sub)
+				variants = append(variants, fmt.Sprintf("(forall ((q_abs Int)) (! %s :pattern ((select (select %s %s) q_abs))))", nb, r.arr, r.ref))
+			}
+			return S{and(variants...), boolT}
+		}
+		return S{orig, boolT}
 	}
 	e.fail("unsupported expression node %s", n.Op)
 	return nil
@@ -324,7 +356,7 @@ func (e *EvalCtx) binary(n *XNode) Val {
 		if k, ok := smallConst(b.T); ok {
 			return S{app("*", a.T, pow2Str(uint(k))), intT}
 		}
-		return S{app("*", a.T, app("pow2", b.T)), intT}
+		return S{app("go_shl", a.T, b.T), intT}
 	case ">>":
 		if k, ok := smallConst(b.T); ok {
 			return S{app("div", a.T, pow2Str(uint(k))), intT}
@@ -332,7 +364,7 @@ func (e *EvalCtx) binary(n *XNode) Val {
 		if k, err := strconv.Atoi(b.T); err == nil && k < 64 {
 			return S{app("div", a.T, pow2Str(uint(k))), intT}
 		}
-		return S{app("div", a.T, app("pow2", b.T)), intT}
+		return S{app("go_shr", a.T, b.T), intT}
 	case "&":
 		if k, err := strconv.ParseInt(b.T, 10, 64); err == nil && k >= 0 && (k+1)&k == 0 {
 			return S{app("mod", a.T, num(k+1)), intT}
@@ -471,6 +503,10 @@ func (e *EvalCtx) index(x Val, i S) Val {
 	}
 	switch t := xs.Ty.Underlying().(type) {
 	case *types.Slice:
+		if len(e.bound) > 0 && sortOfType(t.Elem()) != "" {
+			arr := e.heap("e:"+canonKey(t.Elem()), arrSort("Int", arrSort("Int", sortOfType(t.Elem()))))
+			e.reads = append(e.reads, readRec{arr, sliceField("s.ref", xs.T), sliceField("s.off", xs.T), i.T})
+		}
 		return e.loadVia(e.heap, Ptr{Ref: sliceField("s.ref", xs.T), Key: "e:" + canonKey(t.Elem()), Idx: plus(sliceField("s.off", xs.T), i.T), Elem: t.Elem()})
 	case *types.Basic:
 		if isString(xs.Ty) {
@@ -734,4 +770,53 @@ func (f *Frame) freshBase() string {
 		return f.freshOverride
 	}
 	return f.s.alloc0
+}
+
+// linearShift: idx == q + shift (q with coefficient one); returns shift.
+func linearShift(idx, q string) (string, bool) {
+	if idx == q {
+		return "0", true
+	}
+	if strings.HasPrefix(idx, "(+ ") {
+		parts := splitTop(idx)
+		var rest []string
+		n := 0
+		for _, p := range parts[1:] {
+			if p == q {
+				n++
+				continue
+			}
+			if containsSym(p, q) {
+				return "", false
+			}
+			rest = append(rest, p)
+		}
+		if n != 1 {
+			return "", false
+		}
+		if len(rest) == 1 {
+			return rest[0], true
+		}
+		return app("+", rest...), true
+	}
+	return "", false
+}
+
+func containsSym(t, sym string) bool {
+	for _, s := range symbolsOf(t) {
+		if s == sym {
+			return true
+		}
+	}
+	return false
+}
+
+// replaceSym substitutes whole-symbol occurrences of sym in t.
+func replaceSym(t, sym, by string) string {
+	return identRe.ReplaceAllStringFunc(t, func(m string) string {
+		if m == sym {
+			return by
+		}
+		return m
+	})
 }
